@@ -100,6 +100,7 @@ DEFAULT_PROFILE: dict[str, Any] = {
     "security": True,
     "multi_body_multipart": False,  # C03 finding: multipart next to another media type loses its boundary
     "multi_body_array": False,      # C03 finding: isinstance(body, list[...]) in the multi-body dispatch raises TypeError
+    "const_float": True,            # C11 finding when False: Literal[1.5] is not a valid type
     "component_unions": False,      # top-level union / array component schemas (forward references inside them)
     "multipart_const": False,       # C06 finding: const property inside a multipart body model crashes rendering
 }
@@ -130,7 +131,7 @@ def enum_ir(draw, prof, allow_null=True):
 @st.composite
 def const_ir(draw, prof):
     v = draw(st.one_of(st.sampled_from(["fixed", "Other Value", "x-1"]), st.integers(-3, 9), st.booleans(),
-                       st.sampled_from([1.5, -0.25])))
+                       st.sampled_from([1.5, -0.25]) if prof.get("const_float", True) else st.integers(10, 12)))
     return {"k": "const", "value": v}
 
 
